@@ -6,6 +6,10 @@ package consensus
 // White-box harness compiled into package consensus through `go test -overlay` (see /verif/run).
 
 import (
+	"encoding/json"
+	"os"
+	"path/filepath"
+	"strings"
 	"testing"
 
 	"verifharness/vt"
@@ -13,9 +17,9 @@ import (
 
 func init() {
 	vt.PropertyID = "C19"
-	vt.Register("safety", 1, c19GenSafety, c19CheckSafety)
+	vt.Register("safety", 0.85, c19GenSafety, c19CheckSafety)
 	vt.Register("liveness", 0.5, c19GenLive, c19CheckLive)
-	vt.Register("recovery", 0.5, c19GenRecovery, c19CheckLive)
+	vt.Register("recovery", 0.45, c19GenRecovery, c19CheckLive)
 	vt.Register("proposal", 0.3, c19GenProp, c19CheckProp)
 	vt.Register("storyline", 0.25, c19GenStory, c19CheckStory)
 }
@@ -28,4 +32,47 @@ func TestProp(t *testing.T) {
 func TestReplay(t *testing.T) {
 	defer c19Cleanup()
 	vt.ReplayAll(t)
+}
+
+// TestKnownFindings re-confirms the listed finding C19KnownHiddenRecovery from its recorded case (a recovery case
+// whose prefix is the hidden-recovery storyline, which the generator does not draw while the finding is listed):
+// the synchronous phase makes no block and resumes as soon as duplicates pass the extensible pools.
+func TestKnownFindings(t *testing.T) {
+	defer c19Cleanup()
+	key := C19KnownHiddenRecovery
+	if !vt.Known(key) {
+		t.Logf("%s: not listed as known: TestProp generates the shape itself", key)
+		return
+	}
+	root := os.Getenv("VERIF_ROOT")
+	if root == "" {
+		root = "/verif"
+	}
+	raw, err := os.ReadFile(filepath.Join(root, "replays", "C19", "known", key+".json"))
+	if err != nil {
+		t.Logf("%s: %v", key, err)
+		return
+	}
+	var env struct {
+		Case C19Live `json:"case"`
+	}
+	if err := json.Unmarshal(raw, &env); err != nil {
+		t.Fatal(err)
+	}
+	for try := 0; try < 3; try++ { // the run is reproducible up to goroutine handoff inside a node
+		res, err := c19RunLive(env.Case)
+		if err != nil {
+			s := err.Error()
+			if i := strings.IndexByte(s, '\n'); i >= 0 {
+				s = s[:i]
+			}
+			t.Logf("%s: the recorded case ends otherwise: %s", key, s)
+			continue
+		}
+		if res.shortfall != "" && res.resumed {
+			vt.KnownFinding(key, "all validators honest, every message delivered, timers firing after the recorded asynchronous prefix: "+res.shortfall+"; blocks appear when payloads the receivers' extensible pools already hold are handed to consensus again (the pools hide the repeated byte-identical recovery message of a committed node)")
+			return
+		}
+		t.Logf("%s: the recorded case no longer stalls (shortfall %q, resumed %v)", key, res.shortfall, res.resumed)
+	}
 }
